@@ -4,14 +4,14 @@
    queries:
      R <opts> <pats> ; <geom A> ; <geom B>
         opts: letters  s = also evaluate the slow specification relate_spec (mod-2) and print SPEC=
-                       e = run the generated predicate protocol (C01/Pred.evaluate) on the oracle's events and print EV=
+                       e = print the oracle's events (mod-2), first occurrences in order, as ev=<la><lb><d>... for drv_C01p
                        t = also print the oracle for the transformed pairs (translate, reflect, swap): TR=
                        - = nothing extra
         pats: comma separated 9-letter patterns or "-"
-     -> "valid=ab scope=ab dims=dA,dB M=<mod2>,<endpoint>,<multivalent>,<monovalent> MT=<mod2 matrix of (B,A)> sideok=0/1 real=0/1
+     -> "valid=ab scope=ab dims=dA,dB M=<mod2>,<endpoint>,<multivalent>,<monovalent> MT=<mod2 matrix of (B,A)> sideok=0/1
          fragile=<number of nodes that are not binary64 points and lie on >= 3 segments> inexact=<nodes that are not binary64 points>
          named=<11 chars 0/1: intersects disjoint touches crosses within contains overlaps equals covers coveredBy containsProperly>
-         pat=<0/1 per pattern> nw=<witnesses> nn=<nodes> ns=<segments> [SPEC=..] [EV=<10 chars>] [TR=m,m,m,m]"
+         pat=<0/1 per pattern> nw=<witnesses> nn=<nodes> ns=<segments> ea=<envelope A> eb=<envelope B> [SPEC=..] [ev=..] [TR=m,m,m,m]"
         (when a geometry is not valid / not in scope only valid= scope= dims= are printed; scope = valid and all polygons of
          the geometry together form a valid MultiPolygon)
      P <matrix> <pat,pat,..>  -> 0/1 per pattern (Lib/IM.pat_matches)
@@ -78,19 +78,20 @@ let () =
            let ms = if nolines then (let m = fst (List.hd runs) in [m; m; m; m]) else List.map fst runs in
            let m = List.hd ms in
            let mt = relate_oracle Mod2 gb ga in
-           let eA = env_of ga and eB = env_of gb in
-           let real = List.for_all (fun m -> realizable_b dA dB eA eB m) ms in
            let sok = List.for_all snd runs in
            let named = named_values dA dB m in
            let pl = if pats = "-" then [] else List.filter (fun s -> String.length s = 9) (String.split_on_char ',' pats) in
            let extra = Buffer.create 64 in
            if String.contains opts 's' then Buffer.add_string extra (" SPEC=" ^ mstr (relate_spec Mod2 ga gb));
+           let envs e = match e with None -> "-" | Some (((a, b0), c), d) -> String.concat "," (List.map string_of_z [a; b0; c; d]) in
+           Buffer.add_string extra (Printf.sprintf " ea=%s eb=%s" (envs (env_of ga)) (envs (env_of gb)));
            if String.contains opts 'e' then begin
              let evs = oracle_events Mod2 ga gb in
-             let vts = [vt_intersects; vt_disjoint; vt_touches; vt_crosses; vt_within; vt_contains; vt_overlaps; vt_equals; vt_covers; vt_coveredBy] in
-             Buffer.add_string extra (" EV=" ^ bstr (List.map (fun vt -> evaluate vt dA dB eA eB evs) vts));
-             (* the same events in reverse order: the answer of the protocol must not depend on the order *)
-             Buffer.add_string extra (" EVR=" ^ bstr (List.map (fun vt -> evaluate vt dA dB eA eB (List.rev evs)) vts))
+             let seen = Hashtbl.create 27 in
+             let b = Buffer.create 81 in
+             List.iter (fun ((la, lb), d) -> let k = (int_of_z la, int_of_z lb, int_of_z d) in
+               if not (Hashtbl.mem seen k) then begin Hashtbl.add seen k (); let (x, y, z) = k in Buffer.add_string b (Printf.sprintf "%d%d%d" x y z) end) evs;
+             Buffer.add_string extra (" ev=" ^ (if Buffer.length b = 0 then "-" else Buffer.contents b))
            end;
            if String.contains opts 't' then begin
              let tr f = mstr (relate_oracle Mod2 (map_geom f ga) (map_geom f gb)) in
@@ -99,8 +100,8 @@ let () =
            let fr = fragile_nodes ga gb in
            let nx = List.length (List.filter (fun q -> not (representable q)) (nodes ga gb)) in
            (match fr with ((x, y), w) :: _ -> Buffer.add_string extra (Printf.sprintf " fnode=%s/%s/%s" (string_of_z x) (string_of_z y) (string_of_z w)) | [] -> ());
-           Printf.printf "%s M=%s MT=%s sideok=%c real=%c fragile=%d inexact=%d named=%s pat=%s nw=%d nn=%d ns=%d%s\n" head
-             (String.concat "," (List.map mstr ms)) (mstr mt) (b sok) (b real) (List.length fr) nx (bstr named)
+           Printf.printf "%s M=%s MT=%s sideok=%c fragile=%d inexact=%d named=%s pat=%s nw=%d nn=%d ns=%d%s\n" head
+             (String.concat "," (List.map mstr ms)) (mstr mt) (b sok) (List.length fr) nx (bstr named)
              (String.concat "" (List.map (fun p -> String.make 1 (pm m p)) pl))
              (List.length (witnesses ga gb)) (List.length (nodes ga gb)) (List.length (all_segs ga gb)) (Buffer.contents extra)
          end
